@@ -114,6 +114,18 @@ func VerifyFunc(p *Program, fn *ssa.Function, spec *FuncSpec, observe map[string
 		for _, n := range x.order {
 			res.Obls = append(res.Obls, x.obls[n])
 		}
+		if spec != nil && res.Fail == "" {
+			for _, h := range spec.Hints {
+				when := "before"
+				if h.After {
+					when = "after"
+				}
+				n := fmt.Sprintf("hint:%s:%s#%d:%s", when, h.Callee, h.K, h.C.Label)
+				if _, ok := x.obls[n]; !ok && res.Fail == "" {
+					res.Fail = "hint bound to no call site: " + n
+				}
+			}
+		}
 		res.Warnings = keysOf(x.warns)
 		res.Trusted = keysOf(x.trusted)
 		res.Unspec = keysOf(x.unspec)
@@ -262,4 +274,95 @@ func ShortName(fn *ssa.Function) string {
 		short += "[" + strings.Join(as, ",") + "]"
 	}
 	return short
+}
+
+// CloseOpaque drops the definitional axioms of opaque spec predicates from a query, so that their
+// applications are plain uninterpreted atoms.  With narrow set, the definitions of the versions the goal
+// mentions and of the version just before each of them are kept (for a goal without opaque atoms: the
+// newest version only) -- the step "the predicate survives this one heap change" needs exactly those.
+// Dropping hypotheses is sound: a proof from fewer hypotheses is still a proof.
+func CloseOpaque(query string, narrow bool) string {
+	if !strings.Contains(query, "(! (= (|op:") {
+		return query
+	}
+	lines := strings.Split(query, "\n")
+	keep := map[string]bool{}
+	if narrow {
+		goal := ""
+		for _, ln := range lines {
+			if strings.HasPrefix(ln, "(assert (not ") {
+				goal = ln
+			}
+		}
+		vers := map[string][]int{} // predicate name -> versions present
+		for _, ln := range lines {
+			if strings.HasPrefix(ln, "(declare-fun |op:") {
+				n, v := opSym(ln[len("(declare-fun |"):])
+				vers[n] = append(vers[n], v)
+			}
+		}
+		inGoal := map[string][]int{}
+		for i := 0; i+4 < len(goal); i++ {
+			if goal[i] == '|' && strings.HasPrefix(goal[i+1:], "op:") {
+				n, v := opSym(goal[i+1:])
+				inGoal[n] = append(inGoal[n], v)
+			}
+		}
+		for n, vs := range vers {
+			gs := inGoal[n]
+			if len(gs) == 0 {
+				m := -1
+				for _, v := range vs {
+					if v > m {
+						m = v
+					}
+				}
+				keep[fmt.Sprintf("op:%s#%d", n, m)] = true
+				continue
+			}
+			for _, g := range gs {
+				keep[fmt.Sprintf("op:%s#%d", n, g)] = true
+				m := -1
+				for _, v := range vs {
+					if v < g && v > m {
+						m = v
+					}
+				}
+				if m >= 0 {
+					keep[fmt.Sprintf("op:%s#%d", n, m)] = true
+				}
+			}
+		}
+	}
+	var sb strings.Builder
+	for _, ln := range lines {
+		if strings.HasPrefix(ln, "(assert") {
+			if j := strings.Index(ln, "(! (= (|op:"); j >= 0 {
+				n, v := opSym(ln[j+len("(! (= (|"):])
+				if !keep[fmt.Sprintf("op:%s#%d", n, v)] {
+					continue
+				}
+			}
+		}
+		sb.WriteString(ln)
+		sb.WriteString("\n")
+	}
+	return sb.String()
+}
+
+// opSym parses "op:name#k|..." into (name, k).
+func opSym(s string) (string, int) {
+	s = strings.TrimPrefix(s, "op:")
+	end := strings.Index(s, "|")
+	if end < 0 {
+		end = len(s)
+	}
+	s = s[:end]
+	i := strings.LastIndex(s, "#")
+	if i < 0 {
+		return s, -1
+	}
+	v := 0
+	fmt.Sscanf(s[i+1:], "%d", &v)
+	return s[:i], v
 }
